@@ -47,6 +47,24 @@ CHECKS = {
    technique="exhaustive enumeration of rendered layouts / short strings / short byte strings / value trees x path subsets against a reference grammar and a reference wire walk; protodump's dumpProto driven through an overlay-injected test file and the real binary",
    text="Hex: all byte strings <= 3 over 5 symbols x every whitespace/comment/newline/case layout at every gap (15 M renderings quick) and every string <= 6 over a 9-character alphabet against a reference grammar. protodump: dumpProto on all byte strings <= 4 (5) over the 16-symbol wire alphabet x 5 path configurations and value trees (depth 2/3) x every subset of expand/strings paths incl. absent/prefix/over-long/wildcard paths; output parsed tolerantly and compared with a refwire-based reference walk; CLI forms -file, redirected and piped stdin, malformed => exit 1 without panic.",
    note="Undocumented combinations (same path in -strings and -expand; line break inside a byte) accept both behaviours. dumpProto is reached through a test file injected with go test -overlay; the binary is rebuilt from /repo per run."),
+
+ "C19": dict(level="exploration", design="DESIGN.md §7 C19",
+   technique="exhaustive product enumeration (13 message flavours x values x field position x field number x surrounding scalars x failing stubs x declared lengths) with a region-by-region byte oracle built on the spec-derived reference",
+   text="EncodeNested/DecodeNested for fast-marshal (MarshalTo+Size), Sizer+Marshaler, Marshaler-only, gogo plain/self-marshal, legacy golang v1, protov1 stubs and google v2 plain incl. well-known types; values empty/small/127/128/16383/16384-byte payloads; 5 positions among scalar fields; field numbers up to 2^29-1. Bytes must equal key || varint(len) || csproto.Marshal(m) in an exactly sized canary-framed window, cursor pinned by a sentinel field; DecodeNested (safe+fast) consumes exactly the declared length and yields an Equal message; nested errors propagate (errors.Is sentinel); 3900 declared-length cases with a recording unmarshaler that must not be invoked when the length does not fit.",
+   note="A MarshalTo type without Size() is an ill-formed participant (nobody can size its buffer) and is not enumerated. Cursor position after an error is not part of the verdict."),
+
+ "C06": dict(level="exploration", design="DESIGN.md §7 C06",
+   technique="exhaustive enumeration of wire-level encoding variants of every corpus value tree; differential oracle against the reference runtime's decode of the same bytes",
+   text="For every corpus type x runtime x value tree: all legal encoding variants (order permutations, packed/unpacked/split/mixed, duplicated singular scalar and message fields, every map-entry shape, two oneof members, 7 unknown-field shapes at every position, same inside nested messages) are decoded by the generated Unmarshal into a fresh struct and into a pre-populated struct with primed size cache; the result (read back through reflection) must equal the reference runtime's decode bit-exactly, incl. unknown bytes.",
+   note="Expected trees always come from the reference decode of the same bytes. Known findings (map-entry shapes, merge of duplicated message fields, repeated/file-scope extensions) are matched by shape-level signatures."),
+ "C07": dict(level="exploration", design="DESIGN.md §7 C07",
+   technique="exhaustive enumeration of unknown-field insertions over every corpus value tree; reference-decoded comparison of re-marshaled bytes",
+   text="Every encoding variant carrying unknown fields (7 shapes x every position, nested levels, all runtimes): generated Unmarshal then Size/Marshal; reference decode of the output must show the same unknown bytes in order and the same known tree; Size == len(Marshal); second round trip is a fixed point.",
+   note="Inputs the generated Unmarshal rejects are C06/C08's business."),
+ "C10": dict(level="exploration", design="DESIGN.md §7 C10",
+   technique="exhaustive corpus enumeration with buffer-clobber histories (complement, zero, reuse) and snapshot comparison; lazyproto clause decided by the C14/C15 explorations",
+   text="Every corpus type x runtime x value tree (+ unknown-field variant): generated Unmarshal (default options) from a private buffer, snapshot of the decoded tree, then the buffer is overwritten with its complement, zeroed, and recycled for another decode; the tree must stay equal to the snapshot. The lazyproto half (every accessor in safe mode after the caller clobbers its buffer; values re-verified after every later operation and under all interleavings) is exercised in C14 and C15.",
+   note="Unsafe/fast mode is opt-in and not checked. Alias detection is by content clobbering (complement pattern changes every byte)."),
 }
 
 NOT_YET = {}
